@@ -178,10 +178,7 @@ Proof.
   intros fx fx' p st Hst Kp Ks. unfold child_sel_f.
   pose proof (view_kept_rval _ _ _ Ks) as R. rewrite !path_get_snoc in R.
   destruct Kp as [E|(c & c' & A & B & C & D)]; [rewrite E in *|rewrite A, B in *].
-  - destruct (path_get fx p) as [c| |]; try reflexivity.
-    destruct st as [f|i|k]; [contradiction| |]; simpl in *.
-    + destruct c as [x|fs|[t|]|xs|kvs]; try reflexivity.
-    + destruct c as [x|fs|[t|]|xs|kvs]; try reflexivity.
+  - reflexivity.
   - destruct st as [f|i|k]; [contradiction| |]; simpl in *;
       destruct c as [x|fs|[t|]|xs|kvs]; destruct c' as [x'|fs'|[t'|]|xs'|kvs']; simpl in C, D; try discriminate; try congruence; try reflexivity.
     + destruct (nth_z xs' i); destruct (nth_z xs i); simpl in R; try discriminate; congruence.
@@ -223,40 +220,101 @@ Proof.
     rewrite (IH Hf q eq_refl) in H. rewrite child_field_path in H.
     destruct (path_get fx (path_snoc (spath y') (SField g))) as [c| |]; try discriminate.
     destruct c; simpl in H; inversion H; reflexivity.
+  - apply andb_prop in Hf. destruct Hf as [Hf Hs]. destruct (sel_step sel) as [st|] eqn:Es; try discriminate.
+    destruct (sel_step_val fx sel st Es) as [Ev Hst].
+    rewrite fresh_var_unfold in H. destruct (fresh_var fx y') as [ry| |] eqn:Ey; try discriminate.
+    rewrite Ev in H. simpl scalar_of in H.
+    destruct ry as [x|q]; [simpl in H; discriminate|].
+    rewrite (IH Hf q eq_refl) in H. simpl spath. rewrite Es.
+    unfold child_sel_f in H. destruct (path_get fx (spath y')) as [c| |]; try discriminate.
+    destruct st as [f|i|k]; [contradiction| |]; simpl in H;
+      destruct c as [x|fs|[t|]|xs|kvs]; try discriminate.
+    + destruct (nth_z xs i) as [d|]; try discriminate. destruct d; simpl in H; inversion H; reflexivity.
+    + destruct (field_get kvs k) as [d|]; try discriminate. destruct d; simpl in H; inversion H; reflexivity.
+Qed.
+
+Lemma sel_step_inj : forall s1 s2 st, sel_step s1 = Some st -> sel_step s2 = Some st -> s1 = s2.
+Proof.
+  intros s1 s2 st H1 H2.
+  destruct s1 as [a1| |]; try discriminate. destruct a1 as [c1| | | | | |]; try discriminate.
+  destruct s2 as [a2| |]; try discriminate. destruct a2 as [c2| | | | | |]; try discriminate.
+  destruct c1 as [k1|i1| | |]; inversion H1; subst; destruct c2 as [k2|i2| | |]; inversion H2; subst; reflexivity.
+Qed.
+Lemma sel_step_not_field : forall s st, sel_step s = Some st -> forall g, st <> SField g.
+Proof.
+  intros s st H g. destruct s as [a| |]; try discriminate. destruct a as [c| | | | | |]; try discriminate.
+  destruct c; inversion H; discriminate.
+Qed.
+
+(* a flat variable is a name, or a flat parent followed by one step *)
+Lemma flat_cases : forall y, flat_var y = true ->
+  (exists r, y = VName r) \/
+  (exists y' st, flat_var y' = true /\ spath y = path_snoc (spath y') st /\
+                 (forall z, In z (vars_var y) <-> z = y \/ In z (vars_var y')) /\
+                 ((exists g, y = VMember y' g /\ st = SField g) \/ (exists sel, y = VSel y' sel /\ sel_step sel = Some st))).
+Proof.
+  intros [r|y' g|y' sel] H; simpl in H.
+  - left. eauto.
+  - right. exists y', (SField g). split; [exact H|]. split; [reflexivity|]. split.
+    + intros z. cbn [vars_var In]. split; intros [A|A]; subst; auto.
+    + left. eauto.
+  - right. apply andb_prop in H. destruct H as [H Hs]. destruct (sel_step sel) as [st|] eqn:Es; try discriminate.
+    exists y', st. split; [exact H|]. split; [simpl; rewrite Es; reflexivity|]. split.
+    + intros z. cbn [vars_var].
+      assert (Hv: vars_expr sel = []).
+      { destruct sel as [a| |]; try discriminate. destruct a as [c| | | | | |]; try discriminate. reflexivity. }
+      rewrite Hv, app_nil_r. cbn [In]. split; intros [A|A]; subst; auto.
+    + right. eauto.
+Qed.
+
+Lemma path_snoc_inj : forall p q s t, path_snoc p s = path_snoc q t -> p = q /\ s = t.
+Proof.
+  intros [rp sp] [rq sq] s t H. unfold path_snoc in H. simpl in H. inversion H as [[Hr Hs]].
+  apply app_inj_tail in Hs. destruct Hs as [-> ->]. auto.
+Qed.
+
+Lemma spath_inj : forall a, flat_var a = true -> forall b, flat_var b = true -> spath a = spath b -> a = b.
+Proof.
+  induction a as [ra|a' IHa fa|a' IHa sa]; intros Ha b Hb E.
+  - destruct (flat_cases b Hb) as [(rb & ->)|(b' & st & _ & Eb & _)].
+    + simpl in E. inversion E. reflexivity.
+    + rewrite Eb in E. simpl in E. unfold path_snoc in E. injection E as Hr0 Hs. destruct (p_steps (spath b')); discriminate.
+  - destruct (flat_cases b Hb) as [(rb & ->)|(b' & st & Hb' & Eb & _ & Hk)].
+    + simpl in E. unfold path_snoc in E. injection E as Hr0 Hs. destruct (p_steps (spath a')); discriminate.
+    + simpl in E. rewrite Eb in E. apply path_snoc_inj in E. destruct E as [E1 E2]. simpl in Ha.
+      destruct Hk as [(g & -> & ->)|(sel & -> & Hs)].
+      * inversion E2; subst. f_equal. apply IHa; auto.
+      * exfalso. symmetry in E2. exact (sel_step_not_field _ _ Hs _ E2).
+  - simpl in Ha. apply andb_prop in Ha. destruct Ha as [Ha Hsa]. destruct (sel_step sa) as [sta|] eqn:Esa; try discriminate.
+    destruct (flat_cases b Hb) as [(rb & ->)|(b' & st & Hb' & Eb & _ & Hk)].
+    + simpl in E. rewrite Esa in E. unfold path_snoc in E. injection E as Hr0 Hs. destruct (p_steps (spath a')); discriminate.
+    + simpl in E. rewrite Esa, Eb in E. apply path_snoc_inj in E. destruct E as [E1 E2]. subst st.
+      destruct Hk as [(g & -> & Hg)|(sel & -> & Hs)].
+      * exfalso. exact (sel_step_not_field _ _ Esa _ Hg).
+      * f_equal; [apply IHa; auto|eapply sel_step_inj; eauto].
 Qed.
 
 Lemma spath_root_steps : forall y, flat_var y = true -> forall x, flat_var x = true ->
   p_root (spath y) = p_root (spath x) -> (exists ss, p_steps (spath y) = (p_steps (spath x) ++ ss)%list) -> In x (vars_var y).
 Proof.
-  induction y as [r|y' IH g|y' IH sel]; intros Hy x Hx Hr (ss & Hs); simpl in Hy; try discriminate.
-  - simpl in *. destruct x as [r'|x' f|x' s]; simpl in Hx; try discriminate.
+  induction y as [r|y' IH g|y' IH sel]; intros Hy x Hx Hr (ss & Hs).
+  - simpl in *. destruct (flat_cases x Hx) as [(rx & ->)|(x' & st & _ & Ex & _)].
     + simpl in Hr. subst. left. reflexivity.
-    + simpl in Hs. destruct (p_steps (spath x')); discriminate.
-  - simpl vars_var. destruct (var_eqb (VMember y' g) x) eqn:E.
-    + left. apply (proj1 (proj2 (proj2 syntax_eqb_eq))). exact E.
-    + right. simpl in Hr, Hs.
-      (* x's steps are a prefix of y' steps ++ [g]; x <> y so they are a prefix of y' steps *)
-      assert (Hpre: exists ss', p_steps (spath y') = (p_steps (spath x) ++ ss')%list).
-      { destruct ss as [|s0 ss0] using rev_ind.
-        - exfalso. rewrite app_nil_r in Hs.
-          (* then x = y' . g *)
-          destruct x as [r'|x' f|x' s]; simpl in Hx; try discriminate.
-          + simpl in Hs. destruct (p_steps (spath y')); discriminate.
-          + simpl in Hs, Hr. apply app_inj_tail in Hs. destruct Hs as [Hs1 Hs2]. inversion Hs2; subst f.
-            assert (Hin: In x' (vars_var y')) by (apply IH; auto; exists []; rewrite app_nil_r; auto).
-            (* same root, same steps, both flat: equal variables *)
-            assert (Heq: forall a b, flat_var a = true -> flat_var b = true -> p_root (spath a) = p_root (spath b) ->
-                                     p_steps (spath a) = p_steps (spath b) -> a = b).
-            { induction a as [ra|a' IHa fa|a' IHa sa]; intros b Ha Hb R S; simpl in Ha; try discriminate;
-                destruct b as [rb|b' fb|b' sb]; simpl in Hb; try discriminate; simpl in R, S.
-              - congruence.
-              - destruct (p_steps (spath b')); discriminate.
-              - destruct (p_steps (spath a')); discriminate.
-              - apply app_inj_tail in S. destruct S as [S1 S2]. inversion S2; subst. f_equal. apply IHa; auto. }
-            rewrite (Heq y' x' Hy Hx Hr Hs1) in E. simpl in E.
-            rewrite (proj1 (proj2 (proj2 syntax_eqb_refl)) x'), String.eqb_refl in E. discriminate.
-        - rewrite app_assoc in Hs. apply app_inj_tail in Hs. destruct Hs as [Hs1 _]. exists ss0. exact Hs1. }
-      apply IH; auto.
+    + rewrite Ex in Hs. simpl in Hs. destruct (p_steps (spath x')); discriminate.
+  - destruct (flat_cases _ Hy) as [(r & E)|(y0 & st & Hy0 & Ey & Hin & Hk)]; [discriminate|].
+    destruct Hk as [(g0 & E0 & ->)|(sel & E0 & _)]; [|discriminate]. inversion E0; subst y0 g0.
+    apply Hin. rewrite Ey in Hs, Hr. simpl in Hs, Hr.
+    destruct ss as [|s0 ss0] using rev_ind.
+    + left. rewrite app_nil_r in Hs. symmetry. apply spath_inj; auto. rewrite Ey.
+      destruct (spath x) as [rx sx]. unfold path_snoc. simpl in *. congruence.
+    + right. rewrite app_assoc in Hs. apply app_inj_tail in Hs. destruct Hs as [Hs1 _]. apply IH; auto. exists ss0. exact Hs1.
+  - destruct (flat_cases _ Hy) as [(r & E)|(y0 & st & Hy0 & Ey & Hin & Hk)]; [discriminate|].
+    destruct Hk as [(g0 & E0 & _)|(sel0 & E0 & Hst)]; [discriminate|]. inversion E0; subst y0 sel0.
+    apply Hin. rewrite Ey in Hs, Hr. simpl in Hs, Hr.
+    destruct ss as [|s0 ss0] using rev_ind.
+    + left. rewrite app_nil_r in Hs. symmetry. apply spath_inj; auto. rewrite Ey.
+      destruct (spath x) as [rx sx]. unfold path_snoc. simpl in *. congruence.
+    + right. rewrite app_assoc in Hs. apply app_inj_tail in Hs. destruct Hs as [Hs1 _]. apply IH; auto. exists ss0. exact Hs1.
 Qed.
 
 (* the frame for one flat variable: a write at location q, and q is not at or above y *)
@@ -281,6 +339,23 @@ Proof.
       rewrite !child_field_path. apply view_kept_rval. exact K. }
     split; [exact E|]. intros p Hp.
     rewrite (fresh_var_spath fx (VMember y' g) Hf p Hp). apply view_kept_scalar. exact K.
+  - pose proof Hf as Hfull. apply andb_prop in Hf. destruct Hf as [Hf Hs].
+    destruct (sel_step sel) as [st|] eqn:Es; try discriminate.
+    assert (Hv': forall z, In z (vars_var y') -> view_kept fx fx' (spath z)).
+    { intros z Hz. apply Hv. cbn [vars_var]. right. apply in_or_app. left. exact Hz. }
+    destruct (IH Hf Hv') as [A B].
+    pose proof (Hv (VSel y' sel) (or_introl eq_refl)) as K. simpl in K. rewrite Es in K.
+    destruct (sel_step_val fx sel st Es) as [Ev Hst]. destruct (sel_step_val fx' sel st Es) as [Ev' _].
+    assert (E: fresh_var fx' (VSel y' sel) = fresh_var fx (VSel y' sel)).
+    { rewrite (fresh_var_unfold meth fx'), (fresh_var_unfold meth fx). rewrite A, Ev, Ev'.
+      destruct (fresh_var fx y') as [ry| |] eqn:Ey; try reflexivity.
+      destruct ry as [x|q]; [reflexivity|]. rewrite (fresh_var_spath fx y' Hf q Ey). simpl scalar_of.
+      apply child_sel_view; auto.
+      (* the container's own view: y' is among the variables of y *)
+      apply Hv'. destruct y'; cbn [vars_var]; left; reflexivity. }
+    split; [exact E|]. intros p Hp.
+    assert (Hfull': flat_var (VSel y' sel) = true) by (simpl; rewrite Es, Hf; reflexivity).
+    rewrite (fresh_var_spath fx (VSel y' sel) Hfull' p Hp). simpl spath. rewrite Es. apply view_kept_scalar. exact K.
 Qed.
 
 (* ---- expressions: unchanged variables give unchanged values ---- *)
@@ -365,6 +440,9 @@ Lemma child_flat : forall c p, child c p -> flat_node p = true -> flat_node c = 
 Proof.
   intros c p H. destruct H; simpl; intros Hf; try discriminate; auto;
     try (apply andb_prop in Hf; destruct Hf; assumption).
+  (* the literal selector of a flat variable is a flat expression *)
+  apply andb_prop in Hf. destruct Hf as [_ Hs].
+  destruct e as [a| |]; try discriminate. destruct a as [c0| | | | | |]; try discriminate. reflexivity.
 Qed.
 
 Lemma flat_root : forall rules r n, flat_rules rules = true -> In r rules -> In n (rule_roots r) -> flat_node n = true.
@@ -389,10 +467,19 @@ Qed.
 (* the variable lists of flat nodes contain, with a variable, the variables above it *)
 Lemma vars_var_closed : forall y z, In z (vars_var y) -> flat_var y = true -> incl (vars_var z) (vars_var y).
 Proof.
-  induction y as [r|y' IH g|y' IH sel]; intros z Hz Hf; simpl in Hf; try discriminate.
+  assert (step: forall y y', (forall z, In z (vars_var y) <-> z = y \/ In z (vars_var y')) ->
+                (forall z, In z (vars_var y') -> incl (vars_var z) (vars_var y')) ->
+                forall z, In z (vars_var y) -> incl (vars_var z) (vars_var y)).
+  { intros y y' Hin IH z Hz. apply Hin in Hz. destruct Hz as [->|Hz]; [apply incl_refl|].
+    intros w Hw. apply Hin. right. exact (IH z Hz w Hw). }
+  induction y as [r|y' IH g|y' IH sel]; intros z Hz Hf.
   - simpl in Hz. destruct Hz as [<-|[]]. apply incl_refl.
-  - cbn [vars_var] in Hz. destruct Hz as [<-|Hz]; [apply incl_refl|].
-    cbn [vars_var]. apply incl_tl. apply IH; auto.
+  - destruct (flat_cases _ Hf) as [(r0 & E)|(y0 & st & Hy0 & _ & Hin & Hk)]; [discriminate|].
+    destruct Hk as [(g0 & E0 & _)|(sel0 & E0 & _)]; [|discriminate]. inversion E0; subst y0 g0.
+    eapply step; eauto.
+  - destruct (flat_cases _ Hf) as [(r0 & E)|(y0 & st & Hy0 & _ & Hin & Hk)]; [discriminate|].
+    destruct Hk as [(g0 & E0 & _)|(sel0 & E0 & _)]; [discriminate|]. inversion E0; subst y0 sel0.
+    eapply step; eauto.
 Qed.
 
 Lemma flat_vars_closed :
@@ -447,6 +534,24 @@ Proof.
     destruct (store_scalar dst nv) as [sv| |]; try discriminate.
     destruct (path_set fx (path_snoc (spath x') (SField f)) sv) as [fx0|] eqn:Es; try discriminate.
     inversion Hw'; subst. exists sv. exact Es.
+  - right. apply andb_prop in Hx. destruct Hx as [Hx Hs]. destruct (sel_step s) as [st|] eqn:Est; try discriminate.
+    destruct (sel_step_val meth fx s st Est) as [Ev Hst].
+    unfold fresh_target in Ht.
+    destruct (Fresh.fresh_var meth fx x') as [rx| |] eqn:Ex; try discriminate.
+    rewrite Ev in Ht. destruct rx as [v|p]; try discriminate. inversion Ht; subst t. simpl scalar_of in Hw.
+    rewrite (fresh_var_spath meth fx x' Hx p Ex) in Hw. simpl spath. rewrite Est.
+    destruct st as [f|i|k]; [contradiction| |]; simpl in Hw.
+    + destruct (path_get fx (spath x')) as [obj| |]; try discriminate.
+      destruct obj as [v|fs|o|xs|kvs]; try discriminate.
+      destruct (nth_z xs i) as [dst|]; try discriminate.
+      destruct (store_scalar dst nv) as [sv| |]; try discriminate.
+      destruct (path_set fx (path_snoc (spath x') (SIndex i)) sv) as [fx0|] eqn:Es; try discriminate.
+      inversion Hw; subst. exists sv. exact Es.
+    + destruct (path_get fx (spath x')) as [obj| |]; try discriminate.
+      destruct obj as [v|fs|o|xs|kvs]; try discriminate.
+      destruct (store_map_elem _ _ nv) as [sv| |]; try discriminate.
+      destruct (path_set fx (path_snoc (spath x') (SKey k)) sv) as [fx0|] eqn:Es; try discriminate.
+      inversion Hw; subst. exists sv. exact Es.
 Qed.
 
 Lemma flat_write_frame : forall x fx t nv fx',
@@ -456,9 +561,12 @@ Proof.
   intros x fx t nv fx' Hx Ht Hw y Hy Hnot.
   apply flat_var_frame; auto. intros z Hz.
   assert (Hzf: flat_var z = true).
-  { clear - Hz Hy. induction y as [r|y' IH g|y' IH sel]; simpl in Hy; try discriminate.
+  { clear - Hz Hy. revert z Hz. induction y as [r|y' IH g|y' IH sel]; intros z Hz.
     - destruct Hz as [<-|[]]. reflexivity.
-    - cbn [vars_var] in Hz. destruct Hz as [<-|Hz]; auto. }
+    - cbn [vars_var] in Hz. destruct Hz as [<-|Hz]; auto.
+    - destruct (flat_cases _ Hy) as [(r0 & E)|(y0 & st & Hy0 & _ & Hin & Hk)]; [discriminate|].
+      destruct Hk as [(g0 & E0 & _)|(sel0 & E0 & _)]; [discriminate|]. inversion E0; subst y0 sel0.
+      apply Hin in Hz. destruct Hz as [->|Hz]; auto. }
   assert (Hnz: ~ In x (vars_var z)) by (intro Hin; apply Hnot; eapply vars_var_closed; eauto).
   destruct (write_flat fx x nv fx' t Hx Ht Hw) as [(r & w & -> & ->)|(sv & Hs)].
   - apply replace_view. intro E. apply Hnz.
